@@ -6,6 +6,24 @@ T = {
  "C01": ("exploration", "round-trip oracle + independent wire parser over generated well-formed messages", "§4 C01",
          "Real Codec.encode/decode run on 10^5-10^6 generated messages (every group of the table enumerated, random nesting, framing look-alike values, 4 numbering modes); each result compared structurally with the input and the wire form re-parsed by an independent framer. Holds on what was generated, not a proof.",
          "generator defines 'well-formed w.r.t. the group table'; values restricted to printable ASCII without SOH; vf.ref.fixwire trusted"),
+ "C03": ("exploration", "sent-frame-list oracle on a live reader under exhaustive 1-/2-cut and random partitions", "§4 C03",
+         "A real logged-on socket_read_task is fed valid streams through a chunker in ALL 1-cut and 2-cut partitions of short streams, 1-byte reads, random multi-cut partitions, >4096-byte streams and marker-free garbage; deliveries, inbound journal rows, state and tap are compared with the frames that were sent.",
+         "frames come from the independent framer; garbage containing the marker is C10's"),
+ "C10": ("exploration", "wrapped decoder + independent framer + live-reader progress monitor over exhaustive single-byte corruptions", "§4 C10",
+         "Codec.decode(silent=True) is run on every single-byte substitution/deletion/insertion of a corpus of valid frames, grammar-aware malformed frames and random bytes (no exception, consumed in range, accepted frames re-parsed by the independent framer, read-loop style repeated decode terminates) and a live reader must react to valid traffic after each malformed input.",
+         "'never blocks' is restated as bounded progress: reaction to 16 valid frames; frames claiming > 1500 body bytes are outside the live part"),
+ "C13": ("exploration", "step-by-step reference-model monitor of the Journaler public API", "§4 C13",
+         "Random interleaved operation sequences over several sessions (mirror CompIDs, SQL-special characters, sparse/descending/huge numbers, arbitrary bytes, odd bounds) on in-memory and file-backed journals; each return value / exception and, every 5 steps, the whole content on both load paths are compared with a dict model.",
+         "numbers < 2^63; sqlite3 trusted"),
+ "C16": ("exploration", "exhaustive enumeration of the transition function judged by laws from the statement", "§4 C16",
+         "The entire finite domain (about 120k calls incl. raw-string arguments and unsupported kinds) is enumerated on every run and judged by six laws derived from the statement plus an independent FIX 4.4 matrix table; exhaustive over the stated domain.",
+         "vf/ref/ordref.py matrix cells are my reading of FIX 4.4 Vol.4 App.D; cells contradicted by pinned tests are left unspecified"),
+ "C18": ("exploration", "step-by-step ordered-map reference-model monitor of FIXContainer / FIXMessage", "§4 C18",
+         "Random operation sequences (all public container methods, three tag spellings, nested containers 3 deep, equality with equal / single-difference containers and dicts, pickle) compared operation by operation and structurally with an ordered-list model.",
+         "unspecified zones listed in evidence assumptions are never judged"),
+ "C19": ("exploration", "three-zone lexical oracle (FIX 4.4 datatypes) against SchemaField.validate_value", "§4 C19",
+         "For a real field of every datatype in both dictionaries: all short strings over a hostile alphabet, boundary values, single-character edits of valid date/time templates, random members; every enumerated field with all enumerators and near-misses; verdicts compared with accept / reject / unspecified zones.",
+         "vf/ref/lexical.py is my reading of FIX 4.4 Vol.1 data types; doubtful lexemes are in the unspecified zone"),
  "C02": ("exploration", "independent strict framer as oracle on encoder output and on every tapped transport write", "§4 C02",
          "Every byte string the encoder returns for generated messages (incl. non-ASCII) and every write() of a real connection during random session histories is parsed by an independent strict FIX framer (BodyLength/CheckSum recomputed on bytes).",
          "vf.ref.fixwire is the definition of well-formed; empty values tolerated"),
